@@ -2,7 +2,7 @@
 From Yv Require Export Common.Base C06.Model C06.Spec.
 From Yv Require Export C06.LexEq C06.ParseEq C06.ProofsLen C06.ProofsFuel C06.ProofsStop
   C06.ProofsTok C06.ProofsParse C06.ProofsTilde C06.ProofsNum C06.ProofsEscape C06.ProofsRtBase
-  C06.ProofsRt.
+  C06.ProofsRt C06.ProofsF14 C06.ProofsMono C06.ProofsTop C06.ProofsOp C06.ProofsToken.
 
 Lemma oracle_accepts_errors : forall s, oracle PErr s = None.
 Proof. reflexivity. Qed.
